@@ -302,6 +302,28 @@ theorem invC_step {cd : Codec β} {fix : Bool} {s s' : Sys β} {st : Step} (h : 
       · intro q hq; simp at hq
       · intro q hq; simp at hq
     · simp at hs
+  | exitBegin =>
+    simp only [step] at hs
+    split at hs; · simp at hs
+    rename_i hal
+    simp at hal
+    simp at hs; subst hs
+    have hlen := hist_ne_nil h hal.1
+    refine ⟨h.cur, h.dead, ?_, h.psince, h.pdone, h.pnames, h.tk, h.ak⟩
+    intro x hx
+    simp at hx
+    rcases hx with hx | rfl
+    · exact h.hst x hx
+    · show s.hist.length - 1 < s.hist.length; omega
+  | exitEnd =>
+    simp only [step] at hs
+    split at hs
+    · simp at hs; subst hs
+      refine ⟨fun hc => by simp at hc, fun _ => rfl, by simp, ?_, ?_, ?_, h.tk, h.ak⟩
+      · intro q hq; simp at hq
+      · intro q hq; simp at hq
+      · intro q hq; simp at hq
+    · simp at hs
   | mem ms =>
     simp only [step] at hs
     split at hs; · simp at hs
